@@ -472,6 +472,24 @@ OkGridBinvox(c) ==
 \* the same for a mirrored grid (negative scale): the exporter may re-orient the array, so only the
 \* shape and the world positions of the filled cells are compared; with c.hist the grid was edited in
 \* place before the export (GM / GT compose the edits)
+\* a finely pitched grid far from the origin: cell ix of the original grid has its centre at
+\* (o + signs * ix) / den  (o up to 2^30 cells from the origin).  After export and reload the cells, and
+\* the reloaded grid's own index <-> point maps at the original centres, must be those of the original:
+\* back = the cell the reloaded grid names for each original centre, rel16 = the centre it gives that
+\* cell, in sixteenths of a cell relative to o (onlat = 0: not within 1e-3 of that lattice)
+OkGridBinvoxFar(c) ==
+    LET D == Arr(c.data, c.shape)
+        \* the exporter re-orients the array of a mirrored grid: its cells are then only compared in space
+        mirrored == \E a \in 1..3 : c.signs[a] < 0
+    IN
+    IF c.rshape # c.shape THEN "binvox_shape"
+    ELSE IF Len(c.rfilled) # Cardinality(FilledIx(D)) \/ (~mirrored /\ Range(c.rfilled) # FilledIx(D)) THEN "binvox_filled_cells"
+    ELSE IF ~mirrored /\ c.back # c.idx THEN "reloaded_grid_names_the_original_cell_for_every_original_centre"
+    ELSE IF c.onlat # 1 \/ \E k \in 1..Len(c.idx) : \E a \in 1..3 : c.rel16[k][a] # 16 * c.signs[a] * c.idx[k][a]
+         THEN "reloaded_grid_keeps_every_cell_centre_where_it_was"
+    ELSE IF \E k \in 1..Len(c.idx) : c.filled2[k] # AtIx(D, c.idx[k]) THEN "reloaded_grid_is_filled_at_the_original_centres"
+    ELSE "ok"
+
 OkGridBinvoxPoints(c) ==
     LET D == Arr(c.data, c.shape) IN
     IF c.rshape # c.shape THEN "binvox_shape"
@@ -525,6 +543,7 @@ Clause(c) ==
       [] c.fn = "ops_strip_array" -> OkOpsStrip(c)
       [] c.fn = "grid_binvox" -> OkGridBinvox(c)
       [] c.fn = "grid_binvox_points" -> OkGridBinvoxPoints(c)
+      [] c.fn = "grid_binvox_far" -> OkGridBinvoxFar(c)
       [] c.fn = "grid_reload" -> OkGridReload(c)
       [] OTHER -> "unknown_function"
 
